@@ -23,6 +23,8 @@ func main() {
 		os.Exit(cmdSelftest(os.Args[2:]))
 	case "replay":
 		os.Exit(cmdReplay(os.Args[2:]))
+	case "corpus-levels":
+		cmdCorpusLevels(os.Args[2:])
 	case "dyn":
 		// developer command: run one dynamic driver (test name) against the tree
 		repo := "/repo"
